@@ -1930,7 +1930,7 @@ func ruleLastWinsMerge(r *Run) {
 				}
 				switch x := t.Underlying().(type) {
 				case *types.Map:
-					if _, isSlice := x.Elem().Underlying().(*types.Slice); isSlice {
+					if listOfObjects(x.Elem()) {
 						listValued = true
 					}
 				case *types.Slice:
@@ -1948,7 +1948,68 @@ func ruleLastWinsMerge(r *Run) {
 				"maps whose values are lists are merged with "+name[strings.LastIndex(name, "/")+1:]+", which keeps only the last map's list for a key both have: the entries of the other list are dropped (root fields already routed to a service vanish when a second group for the same service is merged in); such maps are merged by appending")
 		}
 	}
+	// the same written by hand: `for k, v := range other { m[k] = v }` into a map the function
+	// has filled before (a map that receives nothing else is a copy, not a merge)
+	for _, fn := range r.P.Funcs {
+		if !inModule(fn) {
+			continue
+		}
+		var ups []*ssa.MapUpdate
+		for _, ins := range allInstrs(fn) {
+			if mu, ok := ins.(*ssa.MapUpdate); ok {
+				ups = append(ups, mu)
+			}
+		}
+		for _, mu := range ups {
+			mt, ok := mu.Map.Type().Underlying().(*types.Map)
+			if !ok || !listOfObjects(mt.Elem()) {
+				continue
+			}
+			ex, ok := unwrap(mu.Value).(*ssa.Extract)
+			if !ok {
+				continue
+			}
+			nx, ok := ex.Tuple.(*ssa.Next)
+			if !ok || ex.Index != 2 {
+				continue
+			}
+			rng, ok := nx.Iter.(*ssa.Range)
+			if !ok || viaCell(unwrap(rng.X)) == viaCell(unwrap(mu.Map)) {
+				continue
+			}
+			if _, isMap := rng.X.Type().Underlying().(*types.Map); !isMap {
+				continue
+			}
+			others := 0
+			for _, o := range ups {
+				if o != mu && viaCell(unwrap(o.Map)) == viaCell(unwrap(mu.Map)) {
+					others++
+				}
+			}
+			_, isParam := viaCell(unwrap(mu.Map)).(*ssa.Parameter)
+			if others == 0 && !isParam {
+				continue
+			}
+			n++
+			r.Bad(rule, fnName(fn), "last-wins merge of list-valued maps (loop)", r.P.pos(mu.Pos()),
+				"the lists of another map are stored key by key into a map that already holds lists (it is filled elsewhere in this function): for a key both have, the earlier list is replaced, not extended — root fields already routed to a service vanish when a second group for the same service is merged in; such maps are merged by appending")
+		}
+	}
 	r.OKTrivial(rule, "", "last-wins merges of list-valued maps", "-", strconv.Itoa(n)+" in the module")
+}
+
+// listOfObjects: a slice whose elements are pointers, interfaces or structs (selections, steps,
+// requests) — not a list of plain strings or numbers.
+func listOfObjects(t types.Type) bool {
+	sl, ok := t.Underlying().(*types.Slice)
+	if !ok {
+		return false
+	}
+	switch sl.Elem().Underlying().(type) {
+	case *types.Pointer, *types.Interface, *types.Struct:
+		return true
+	}
+	return false
 }
 
 // ruleAssertedErrorNil (R7.P5.err): an error list decoded from a service's answer may hold null
@@ -1960,32 +2021,57 @@ func ruleLastWinsMerge(r *Run) {
 func ruleAssertedErrorNil(r *Run) {
 	const rule = "R7.P5.err"
 	n := 0
+	isErrPtr := func(t types.Type) bool {
+		pt, ok := t.(*types.Pointer)
+		return ok && namedOf(pt.Elem()) == modPath+"/gqlerrors.Error"
+	}
+	// unguardedDeref: an instruction that dereferences v (a possibly nil *Error) without a nil test
+	// in front of it — here, or in a module function v is handed to (as receiver or argument)
+	var unguardedDeref func(v ssa.Value, depth int) ssa.Instruction
+	unguardedDeref = func(v ssa.Value, depth int) ssa.Instruction {
+		refs := v.Referrers()
+		if refs == nil || depth > 3 {
+			return nil
+		}
+		for _, ref := range *refs {
+			switch x := ref.(type) {
+			case *ssa.FieldAddr:
+				if x.X == v && !notNilAt(v, ref.Block()) {
+					return ref
+				}
+			case *ssa.UnOp:
+				if x.Op == token.MUL && x.X == v && !notNilAt(v, ref.Block()) {
+					return ref
+				}
+			case *ssa.Phi:
+				if d := unguardedDeref(x, depth+1); d != nil {
+					return d
+				}
+			case ssa.CallInstruction:
+				if notNilAt(v, ref.Block()) {
+					continue
+				}
+				sc := x.Common().StaticCallee()
+				if sc == nil || !inModule(sc) || sc.Blocks == nil {
+					continue
+				}
+				for i, a := range x.Common().Args {
+					if a == v && i < len(sc.Params) {
+						if d := unguardedDeref(sc.Params[i], depth+1); d != nil {
+							return d
+						}
+					}
+				}
+			}
+		}
+		return nil
+	}
 	for _, fn := range r.P.Funcs {
 		if !inModule(fn) {
 			continue
 		}
 		k := 0
-		for _, ins := range allInstrs(fn) {
-			ta, ok := ins.(*ssa.TypeAssert)
-			if !ok {
-				continue
-			}
-			pt, ok := ta.AssertedType.(*types.Pointer)
-			if !ok || namedOf(pt.Elem()) != modPath+"/gqlerrors.Error" {
-				continue
-			}
-			var v ssa.Value = ta
-			if ta.CommaOk {
-				v = nil
-				for _, ref := range *ta.Referrers() {
-					if ex, ok := ref.(*ssa.Extract); ok && ex.Index == 0 {
-						v = ex
-					}
-				}
-				if v == nil {
-					continue
-				}
-			}
+		judge := func(at ssa.Instruction, vals []ssa.Value, how string) {
 			n++
 			k++
 			key := "error taken out of the interface"
@@ -1993,25 +2079,58 @@ func ruleAssertedErrorNil(r *Run) {
 				key += "#" + strconv.Itoa(k)
 			}
 			var bad ssa.Instruction
-			if refs := v.Referrers(); refs != nil {
-				for _, ref := range *refs {
-					deref := false
-					switch x := ref.(type) {
-					case *ssa.FieldAddr:
-						deref = x.X == v
-					case *ssa.UnOp:
-						deref = x.Op == token.MUL && x.X == v
-					}
-					if deref && !notNilAt(v, ref.Block()) {
-						bad = ref
-					}
+			for _, v := range vals {
+				if d := unguardedDeref(v, 0); d != nil {
+					bad = d
 				}
 			}
 			if bad != nil {
 				r.Bad(rule, fnName(fn), key, r.P.pos(bad.Pos()),
-					"the *Error taken out of an error interface is dereferenced without a nil test: a null entry of a service's errors list arrives here as a non-nil error holding a nil pointer, and the dereference panics — in the collector goroutine of the fan-out helper, which takes the process down")
+					"the *Error taken out of an error interface ("+how+") is dereferenced without a nil test ("+fnName(bad.Parent())+"): a null entry of a service's errors list arrives here as a non-nil error holding a nil pointer, and the dereference panics — in the collector goroutine of the fan-out helper, which takes the process down")
 			} else {
-				r.OK(rule, fnName(fn), key, r.P.pos(ta.Pos()), "the pointer is only handed on, or every dereference stands behind a nil test")
+				r.OK(rule, fnName(fn), key, r.P.pos(at.Pos()), "the pointer is only handed on, or every dereference (here and in the module functions it is handed to) stands behind a nil test")
+			}
+		}
+		for _, ins := range allInstrs(fn) {
+			switch x := ins.(type) {
+			case *ssa.TypeAssert:
+				if !isErrPtr(x.AssertedType) {
+					continue
+				}
+				var v ssa.Value = x
+				if x.CommaOk {
+					v = nil
+					for _, ref := range *x.Referrers() {
+						if ex, ok := ref.(*ssa.Extract); ok && ex.Index == 0 {
+							v = ex
+						}
+					}
+					if v == nil {
+						continue
+					}
+				}
+				judge(x, []ssa.Value{v}, "a type assertion")
+			case *ssa.Call:
+				// errors.As(err, &e) with e a *Error: what is loaded from e afterwards
+				if calleeName(&x.Call) != "errors.As" || len(x.Call.Args) != 2 {
+					continue
+				}
+				tgt := unwrap(x.Call.Args[1])
+				al, ok := tgt.(*ssa.Alloc)
+				if !ok {
+					continue
+				}
+				pp, ok := al.Type().(*types.Pointer)
+				if !ok || !isErrPtr(pp.Elem()) {
+					continue
+				}
+				var loads []ssa.Value
+				for _, ref := range *al.Referrers() {
+					if ld, ok := ref.(*ssa.UnOp); ok && ld.Op == token.MUL && ld.X == ssa.Value(al) {
+						loads = append(loads, ld)
+					}
+				}
+				judge(x, loads, "errors.As")
 			}
 		}
 	}
